@@ -523,6 +523,11 @@ def closed_edges(g: CFG, facts: Facts) -> Set[Tuple[int, str]]:
                 if nid not in on:
                     continue
                 for at in _undecided_atoms(facts, t):
+                    ind = getattr(facts, 'independent', None)
+                    if ind is not None and ind(at):
+                        # the rule argued that no outcome of this kind of
+                        # atom can refute its assumption
+                        continue
                     if _related(at, facts, subjects):
                         facts.undecided.append(norm(at))
     PENDING = facts
